@@ -2620,19 +2620,23 @@ class InventoryPreviewTree(PreviewTree, inventorytree.InventoryTree):
 
     def get_symlink_target(self, path):
         """See Tree.get_symlink_target."""
-        file_id = self.path2id(path)
-        if not self._content_change(file_id):
-            return self._transform._tree.get_symlink_target(path)
         trans_id = self._path2trans_id(path)
+        if trans_id is None:
+            raise NoSuchFile(path)
+        if trans_id not in self._transform._new_contents:
+            return self._transform._tree.get_symlink_target(
+                self._tree_path(trans_id, path)
+            )
         name = self._transform._limbo_name(trans_id)
         return osutils.readlink(name)
 
     def get_file(self, path):
         """See Tree.get_file."""
-        file_id = self.path2id(path)
-        if not self._content_change(file_id):
-            return self._transform._tree.get_file(path)
         trans_id = self._path2trans_id(path)
+        if trans_id is None:
+            raise NoSuchFile(path)
+        if trans_id not in self._transform._new_contents:
+            return self._transform._tree.get_file(self._tree_path(trans_id, path))
         name = self._transform._limbo_name(trans_id)
         return open(name, "rb")
 
